@@ -480,6 +480,12 @@ def c04(repo, res):
                                 "staticness guard: on a rotating/moving path the other entries are ignored", x.lineno))
     # ---- F5 path predicates
     n5 = path_quantifier_rule(res, node, rel, "getBH_level2")
+    # predicates that getBH_level2 delegates to helpers of its own module (`_has_unit_orientation(sens)`)
+    wmod = ARepo(common.REPO).module("magpylib._src.fields.field_wrap_BH")
+    for c in ast.walk(node):
+        if isinstance(c, ast.Call) and isinstance(c.func, ast.Name) and wmod is not None and c.func.id in wmod.funcs and c.func.id not in ("getBH_level2", "getBH_level1", "get_src_dict", "getBH_dict_level2") \
+                and any("orientation" in ast.unparse(x) for x in ast.walk(wmod.funcs[c.func.id]) if isinstance(x, ast.Attribute)):
+            n5 += path_quantifier_rule(res, wmod.funcs[c.func.id], rel, c.func.id)
     arepo = ARepo(common.REPO)
     um = arepo.module("magpylib._src.utility")
     if um is not None and "check_static_sensor_orient" in um.funcs:
@@ -541,7 +547,7 @@ def path_quantifier_rule(res, fn, rel, fname, rule="F5"):
             parents[id(c)] = n
     gens = set()   # loop variables of generators / for loops running over a whole path
     for n in ast.walk(fn):
-        if isinstance(n, ast.comprehension) and isinstance(n.target, ast.Name):
+        if isinstance(n, (ast.comprehension, ast.For)) and isinstance(n.target, ast.Name):
             it = n.iter
             if (isinstance(it, ast.Name) and it.id in pvars) or (is_path_expr(it) and "as_quat" in ast.unparse(it)):
                 gens.add(n.target.id)
